@@ -18,6 +18,10 @@ def gen_flat(rng):
     """flat CAN schema: 1..3 messages of 1..8 signals, <= 64 bits each"""
     d = gen.Desc()
     d.enums = gen.gen_enums(rng, rng.randint(0, 2))
+    # enum names of every spelling (a type's kind is not to be guessed from the first letter of its name)
+    pool = rng.sample(["fan_mode", "ignition", "idle_state", "flags", "umode", "direction", "Status", "int_kind", "float_kind",
+                       "unit_sel", "Eco9"], len(d.enums))
+    d.enums = [(pool[k] if rng.random() < 0.6 else en, [(f"{pool[k]}_{vn}", v) for vn, v in es]) for k, (en, es) in enumerate(d.enums)]
     enames = [e[0] for e in d.enums]
     extra = []
     d.msgs = []  # (binding name, struct name) in source order
